@@ -698,6 +698,44 @@ def r16_cursor_loops_advance(ctx, reach):
     ctx.ob("R20.16", "input-reachable-set:cursor-loops-advance", True, "", "%d cursor loops examined" % n, nontrivial=False)
 
 
+STR_INDEX_METHODS = ("String::truncate", "String::split_off", "String::insert", "String::insert_str", "String::remove", "String::drain", "String::replace_range", "str::split_at", "str::split_at_mut")
+VEC_INDEX_METHODS = ("Vec::remove", "Vec::swap_remove", "Vec::insert", "Vec::split_off", "Vec::drain", "VecDeque::remove", "BytesMut::split_to", "BytesMut::split_off", "Bytes::split_to", "Bytes::split_off",
+                     "Bytes::slice", "Buf::advance", "Bytes::truncate")
+
+
+def r17_panicking_index_methods(ctx, reach):
+    """std methods that take a byte position into a String panic when the position is not a character boundary (and past the end):
+    on text that came from the peer a fixed position (`truncate(256)`) is hit by any multi-byte character that straddles it —
+    `from_utf8_lossy` turns every invalid byte into a 3-byte character, so arbitrary bytes do it. The position must be found in
+    that very string (find, char_indices, len, floor_char_boundary)"""
+    n = 0
+    for key in sorted(reach):
+        body = ctx.P.bodies[key]
+        if key in ctx.P.inlined_away or key.startswith(("util::cert", "util::tls", "anytls_")):
+            continue
+        o = None
+        for c in body.calls():
+            nm = c.norm or ""
+            if not nm.endswith(STR_INDEX_METHODS) or len(c.args) < 2:
+                continue
+            o = o or ctx.origins(body)
+            n += 1
+            s_t = o.of_operand(c.args[0])
+            ix = o.of_operand(c.args[1])
+            skey = strip_bb(s_t)
+            derived = False
+            for s_ in subterms(ix):
+                if isinstance(s_, tuple) and s_ and s_[0] == "call" and s_[1].split("::")[-1] in ("find", "rfind", "len", "char_indices", "floor_char_boundary", "ceil_char_boundary", "position", "rposition", "match_indices") \
+                        and any(strip_bb(a_) == skey or (var_name(a_) and var_name(a_) == var_name(s_t)) for a_ in s_[3]):
+                    derived = True
+            zero = const_value(ix) == 0
+            ctx.ob("R20.17", "%s|%s#%d" % (ctx.P.owner(key), nm.split("::")[-1], n), derived or zero, c.site,
+                   "the position is found in the same string" if derived or zero else
+                   "`%s(%s)` on text that can come from the peer: the position is not derived from that string, so a multi-byte character straddling it (any non-ASCII text, or arbitrary bytes after from_utf8_lossy) "
+                   "makes the call panic — the task that handles the frame unwinds before it has released anyone" % (nm.split("::")[-1], fmt(ix)[:30]))
+    ctx.ob("R20.17", "input-reachable-set:string-positions-come-from-the-string", True, "", "%d position-taking String calls examined" % n, nontrivial=False)
+
+
 def r8_inventory(ctx, reach):
     total = 0
     kinds = {}
@@ -738,5 +776,6 @@ def run(ctx):
     r13_slice_indices(ctx, reach)
     r15_map_index(ctx, reach)
     r16_cursor_loops_advance(ctx, reach)
+    r17_panicking_index_methods(ctx, reach)
     r14_gauges_released_on_every_exit(ctx)
     r8_inventory(ctx, reach)
